@@ -1,2 +1,227 @@
-(** Placeholder until the proofs land. *)
-Require Import JF.Base.Store JF.Model.StateHandler.
+(** * Props/C13.v — In-states are isolated copies; only commits change the global state.
+
+    Model: Model/StateHandler.v (TreeStateHandler + TreePhysicalState + TreeLiftingState on the
+    object store Base/Store.v).  [abs g id] is the abstraction of VALUES
+    (position, velocity or None, time stamp or None) per identifier; [grefs g id] the OBJECTS.
+    All theorems quantify over arbitrary trees (any number of roots / children per root), arbitrary
+    identifiers and arbitrary operation sequences; nothing is bounded.
+
+    Client discipline ([disciplinedb], hypothesis of [noninterference]): in-place writes go only to
+    objects the client owns, i.e. objects handed out by a copying extraction or created by the
+    client and not part of an inserted branch since; inserted units carry velocity and time stamp
+    together or neither (the code asserts this). *)
+From Coq Require Import ZArith List Bool Arith PArith.
+Require Import JF.Base.Store JF.Model.StateHandler JF.Proofs.StateHandlerProofs.
+Import ListNotations.
+
+(* ---------------------------------------------------------------------------------------- *)
+(** The invariant holds initially for every tree and is kept by EVERY operation. *)
+
+Theorem invariant_initial : forall levels npr tree, cinv (mkC (init levels npr tree) [] []).
+Proof. exact cinv_init. Qed.
+Print Assumptions invariant_initial.
+
+Theorem invariant_preserved : forall ops c, cinv c -> cinv (run c ops).
+Proof. exact cinv_run. Qed.
+Print Assumptions invariant_preserved.
+
+(* ---------------------------------------------------------------------------------------- *)
+(** A branch handed out for [id] contains exactly the node, its ancestors and its descendants
+    (among the identifiers of the tree), each once, with the current values; the extraction does
+    not change the global state. *)
+Theorem extract_complete : forall g id g' b,
+  ginv g -> extract g id = (g', Some b) ->
+  (forall k, valid g k -> (In k (map u_id (units b)) <-> related id k)) /\
+  NoDup (map u_id (units b)) /\
+  (forall u, In u (units b) -> abs g (u_id u) = Some (uvals (g_store g') u)) /\
+  (forall k, abs g' k = abs g k).
+Proof. exact extract_complete_lemma. Qed.
+Print Assumptions extract_complete.
+
+(** The objects of an extracted branch are new: pairwise distinct, not allocated before, not
+    reachable from the global state, in no branch handed out earlier, not owned by the client. *)
+Theorem extract_fresh : forall c id g' b,
+  cinv c -> extract (c_g c) id = (g', Some b) ->
+  NoDup (branch_addrs b) /\
+  forall a, In a (branch_addrs b) ->
+    ~ allocated (g_store (c_g c)) a /\ ~ greach g' a /\ ~ In a (c_owned c) /\
+    forall b', In b' (c_held c) -> ~ In a (branch_addrs b').
+Proof. exact extract_fresh_lemma. Qed.
+Print Assumptions extract_fresh.
+
+(* ---------------------------------------------------------------------------------------- *)
+(** Non-interference, for every disciplined operation sequence from every state satisfying the
+    invariant: at every step ([trace_spec] unfolds [step_spec] along the run)
+    - extract / extract-active / extract-global / write / new / clear / share leave [abs] unchanged
+      for every identifier, and change no object other than the one written;
+    - [OInsert hs] leaves the store unchanged and makes [abs] equal to the previous [abs]
+      overridden, for the identifiers of the inserted units, by exactly the inserted values
+      (last occurrence in insertion order), and to the previous [abs] everywhere else. *)
+Theorem noninterference : forall ops c, cinv c -> disciplinedb c ops = true -> trace_spec c ops.
+Proof. exact noninterference_lemma. Qed.
+Print Assumptions noninterference.
+
+(** One step, spelled out. *)
+Theorem noninterference_step : forall c o, cinv c -> op_okb c o = true ->
+  match o with
+  | OInsert hs =>
+      g_store (c_g (step c o)) = g_store (c_g c) /\
+      forall id, abs (c_g (step c o)) id =
+        match find_last id (flat (select (c_held c) hs)) with
+        | Some u => match abs (c_g c) id with Some _ => Some (uvals (g_store (c_g c)) u) | None => None end
+        | None => abs (c_g c) id
+        end
+  | OWrite h k f v =>
+      (forall id, abs (c_g (step c o)) id = abs (c_g c) id) /\
+      (forall a, target c h k f <> Some a -> read (g_store (c_g (step c o))) a = read (g_store (c_g c)) a)
+  | _ =>
+      (forall id, abs (c_g (step c o)) id = abs (c_g c) id) /\
+      (forall a, allocated (g_store (c_g c)) a -> read (g_store (c_g (step c o))) a = read (g_store (c_g c)) a)
+  end.
+Proof. exact step_spec_holds. Qed.
+Print Assumptions noninterference_step.
+
+(** Between two commits the global state does not change. *)
+Theorem no_commit_no_change : forall ops c, cinv c -> disciplinedb c ops = true ->
+  forallb (fun o => negb (is_insert o)) ops = true ->
+  forall id, abs (c_g (run c ops)) id = abs (c_g c) id.
+Proof. exact no_insert_no_change_lemma. Qed.
+Print Assumptions no_commit_no_change.
+
+(** Changing a branch has no effect on other extracted branches: a held branch keeps its values
+    under every operation except an in-place write to one of its own objects. *)
+Theorem held_branch_isolated : forall c o b u,
+  cinv c -> In b (c_held c) -> In u (units b) ->
+  (forall h k f v a, o = OWrite h k f v -> target c h k f = Some a -> ~ In a (branch_addrs b)) ->
+  uvals (g_store (c_g (step c o))) u = uvals (g_store (c_g c)) u.
+Proof. exact held_branch_isolated_lemma. Qed.
+Print Assumptions held_branch_isolated.
+
+(** After [insert] exactly the inserted values are read back and nothing else changed. *)
+Theorem insert_reads_back : forall g bs id, Forall unit_wf (flat bs) ->
+  g_store (insert g bs) = g_store g /\
+  abs (insert g bs) id =
+  match find_last id (flat bs) with
+  | Some u => match abs g id with Some _ => Some (uvals (g_store g) u) | None => None end
+  | None => abs g id
+  end.
+Proof. intros g bs id W. split; [apply store_insert | apply insert_reads_back_lemma; exact W]. Qed.
+Print Assumptions insert_reads_back.
+
+(* ---------------------------------------------------------------------------------------- *)
+(** Documented facts about aliasing (true of the code, see harness/c13.py: the number of aliased
+    objects is compared with the implementation's [id()]s after every operation). *)
+
+(** After [insert] the objects of the branch ARE the objects of the global state. *)
+Theorem insert_aliases : forall g bs id, Forall unit_wf (flat bs) ->
+  grefs (insert g bs) id =
+  match find_last id (flat bs) with
+  | Some u => match grefs g id with Some _ => Some (urefs u) | None => None end
+  | None => grefs g id
+  end.
+Proof. exact insert_aliases_lemma. Qed.
+Print Assumptions insert_aliases.
+
+(** [extract_global_state] hands out the global objects themselves. *)
+Theorem extract_global_aliases : forall g b u,
+  In b (extract_global g) -> In u (units b) -> grefs g (u_id u) = Some (urefs u).
+Proof. exact extract_global_aliases_lemma. Qed.
+Print Assumptions extract_global_aliases.
+
+(** Hence isolation does NOT hold without the discipline: writing through a branch after it was
+    inserted changes the global state although no insert takes place. *)
+Theorem isolation_without_discipline_refuted :
+  exists c o id, cinv c /\ is_insert o = false /\ abs (c_g (step c o)) id <> abs (c_g c) id.
+Proof.
+  exists (run (mkC (init 1 1 [([1%Z], [])]) [] []) [OExtract (Root 0); OInsert [0]]),
+         (OWrite 0 0 FPos [2%Z]), (Root 0).
+  split; [apply cinv_run; apply cinv_init|]. split; [reflexivity|]. vm_compute. discriminate.
+Qed.
+Print Assumptions isolation_without_discipline_refuted.
+
+(* ---------------------------------------------------------------------------------------- *)
+(** The active part extracted is exactly the set of independently moving units. *)
+Theorem independent_active_rule : forall g, ginv g ->
+  (* one level: the lifted identifiers *)
+  (g_levels g = 1 -> forall id, In id (active_ids g) <->
+     exists i, id = Root i /\ i < length (g_phys g) /\ lifted g (Root i)) /\
+  (* two levels: a lifted root with all its [g_npr] children lifted is a composite object; of a
+     lifted root with some child not lifted, the lifted children move independently *)
+  (g_levels g <> 1 -> forall id, In id (active_ids g) <->
+     match id with
+     | Root i => i < length (g_phys g) /\ lifted g (Root i) /\ forall j, j < g_npr g -> lifted g (Leaf i j)
+     | Leaf i j => i < length (g_phys g) /\ lifted g (Root i) /\ j < g_npr g /\ lifted g (Leaf i j) /\
+                   exists j', j' < g_npr g /\ ~ lifted g (Leaf i j')
+     end) /\
+  (* what is handed out: one copied branch per such identifier, with the current values, all
+     objects new and pairwise distinct; the global state is unchanged *)
+  (forall g' bs, extract_active g = (g', bs) ->
+     Forall2 (extracted g (g_store g')) (active_ids g) bs /\
+     NoDup (flat_map branch_addrs bs) /\ forall id, abs g' id = abs g id).
+Proof.
+  intros g G. split; [exact (active_ids_rule1 g)|]. split; [exact (active_ids_rule2 g G)|].
+  intros g' bs X. destruct (extract_active_spec g g' bs G X) as [S [W [E [F N]]]].
+  split; [exact F|]. split; [exact N|]. intro id. rewrite S. apply abs_ext; assumption.
+Qed.
+Print Assumptions independent_active_rule.
+
+(* ======================================================================================== *)
+(** Non-vacuity: concrete, non-trivial instances of the hypotheses. *)
+
+Definition ex_tree : list (val * list val) :=
+  [([10; 11]%Z, [[12; 13]%Z; [14; 15]%Z]); ([20; 21]%Z, [[22; 23]%Z; [24; 25]%Z])].
+Definition ex_c0 : cstate := mkC (init 2 2 ex_tree) [] [].
+(** extract a leaf, give root and leaf a velocity and a time stamp, commit; extract the active
+    part, time-slice it in place, hand the velocity over to the other leaf, commit both. *)
+Definition ex_ops : list op :=
+  [OExtract (Leaf 0 1); ONew 0 0 FVel [1; 0]%Z; ONew 0 0 FTs [0; 0]%Z; ONew 0 1 FVel [2; 0]%Z;
+   ONew 0 1 FTs [0; 0]%Z; OInsert [0]; OExtractActive; OWrite 1 1 FPos [16; 17]%Z;
+   OWrite 1 1 FTs [3; 5]%Z; OExtract (Leaf 0 0); OShare 2 1 1 1 FVel; OShare 2 1 1 1 FTs;
+   OClear 1 1; OInsert [1; 2]; OExtractGlobal].
+
+Example ex_invariant : cinv ex_c0 /\ cinv (run ex_c0 ex_ops).
+Proof. split; [apply invariant_initial | apply invariant_preserved; apply invariant_initial]. Qed.
+
+Example ex_disciplined : disciplinedb ex_c0 ex_ops = true.
+Proof. vm_compute. reflexivity. Qed.
+
+Example ex_noninterference : trace_spec ex_c0 ex_ops.
+Proof. apply noninterference; [apply invariant_initial | exact ex_disciplined]. Qed.
+
+(** the run really commits something: the state after differs from the state before *)
+Example ex_changes : abs (c_g (run ex_c0 ex_ops)) (Leaf 0 0) = Some ([12; 13]%Z, Some [2; 0]%Z, Some [3; 5]%Z)
+                     /\ abs (c_g (run ex_c0 ex_ops)) (Leaf 0 1) = Some ([16; 17]%Z, None, None)
+                     /\ abs (c_g ex_c0) (Leaf 0 1) = Some ([14; 15]%Z, None, None).
+Proof. vm_compute. repeat split. Qed.
+
+Example ex_extract : exists g' b, extract (c_g (run ex_c0 ex_ops)) (Root 0) = (g', Some b)
+                                  /\ length (units b) = 3 /\ length (branch_addrs b) = 7.
+Proof. eexists. eexists. split; [vm_compute; reflexivity | split; reflexivity]. Qed.
+
+Example ex_no_commit : forall id,
+  abs (c_g (run ex_c0 (firstn 5 ex_ops))) id = abs (c_g ex_c0) id.
+Proof. apply no_commit_no_change; [apply invariant_initial | reflexivity | reflexivity]. Qed.
+
+Example ex_isolated :
+  let c := run ex_c0 (firstn 9 ex_ops) in
+  (exists b, nth_error (c_held c) 0 = Some b) /\
+  forall b u, nth_error (c_held c) 0 = Some b -> In u (units b) ->
+    uvals (g_store (c_g (step c (OWrite 1 1 FPos [99]%Z)))) u = uvals (g_store (c_g c)) u.
+Proof.
+  intro c. split; [vm_compute; eexists; reflexivity|]. intros b u N Hu.
+  apply (held_branch_isolated c _ b u);
+    [apply invariant_preserved; apply invariant_initial | eapply nth_error_In; exact N | exact Hu |].
+  intros h k f v a E T. injection E as <- <- <- <-. vm_compute in N. injection N as <-.
+  vm_compute in T. injection T as <-. vm_compute. intuition discriminate.
+Qed.
+
+Example ex_insert_wf : Forall unit_wf (flat (select (c_held (run ex_c0 (firstn 13 ex_ops))) [1; 2])).
+Proof. apply Forall_forall. apply forallb_forall. vm_compute. reflexivity. Qed.
+
+Example ex_active : active_ids (c_g (run ex_c0 (firstn 6 ex_ops))) = [Leaf 0 1]
+                    /\ active_ids (c_g (run ex_c0 ex_ops)) = [Leaf 0 0]
+                    /\ g_levels (c_g ex_c0) <> 1.
+Proof. vm_compute. repeat split; discriminate. Qed.
+
+Example ex_global_aliases : length (extract_global (c_g (run ex_c0 ex_ops))) = 2.
+Proof. reflexivity. Qed.
